@@ -1,0 +1,42 @@
+//go:build verif
+
+// Contracts checked by /verif/gvc (contract-based deductive verification).
+// This file contains comments only; it is compiled only under the "verif" build tag.
+
+package auth
+
+// C19 — the authentication gate. stored(a, u): the stored hash of account u; matches(alg, st, pwd): the
+// password pwd matches the stored hash st under algorithm alg (hash functions are uninterpreted, see
+// /verif/trusted/hash.gvc).
+
+//@ spec func stored(a *Auth, u string) string = a.indexer.index[u].Value.(*Account).Password
+//@ spec func matches(alg string, st string, pwd string) bool = alg == "plain" ? st == pwd : (alg == "md5" ? st == hexs(digest(1, pwd)) : (alg == "sha256" ? st == hexs(digest(2, pwd)) : bcryptOK(st, pwd)))
+//@ spec func authOK(a *Auth) bool = a != nil && a.config != nil && idxOK(a.indexer) && (a.config.Hash == "plain" || a.config.Hash == "md5" || a.config.Hash == "sha256" || a.config.Hash == "bcrypt") && (forall s string :: has(a.indexer.index, s) ==> a.indexer.index[s].Value.(type *Account) && a.indexer.index[s].Value.(*Account) != nil)
+
+// validate: permitted iff the user name is a stored account and the password matches its stored hash.
+//@ func (*Auth).validate
+//@ props C19
+//@ requires [C19] authOK(a)
+//@ ensures [C19] err == nil ==> permitted == (has(a.indexer.index, username) && matches(a.config.Hash, stored(a, username), password))
+//@ ensures [C19] err != nil ==> !permitted
+
+// The basic-auth hook installed by the plugin: the request is accepted (nil) only if the wrapped hook accepted
+// it and validate permitted the credentials — for every protocol version value (fail closed).
+//@ ghost var preErr error
+//@ func type server.OnBasicAuth
+//@ params ctx, client, req
+//@ requires req != nil
+//@ modifies $preErr, req.Options
+//@ ensures $preErr == result
+
+// The broker only creates clients from CONNECT packets whose protocol level Connect.Unpack accepted (3, 4 or 5).
+//@ func (server.Client).Version trusted pure
+//@ params self
+//@ ensures result == 3 || result == 4 || result == 5
+
+//@ func (*Auth).OnBasicAuthWrapper$1
+//@ props C19
+//@ requires [C19] authOK(a) && req != nil && req.Connect != nil && client != nil && pre != nil
+//@ modifies $preErr, req.Options
+//@ ensures [C19] err == nil ==> $preErr == nil
+//@ ensures [C19] err == nil ==> has(a.indexer.index, string(req.Connect.Username)) && matches(a.config.Hash, stored(a, string(req.Connect.Username)), string(req.Connect.Password))
